@@ -496,6 +496,7 @@ def run_case(prop, name, h, timeout_ms=30000, max_paths=400, allow_exceptions=()
     if not complete:
         res['inconclusive'].append(f'path cap {max_paths} hit')
     res['paths'] = len(paths)
+    seen_sym = set()
     seen_keys = set()
     ob_index = [0]
     for p in paths:
@@ -566,6 +567,11 @@ def run_case(prop, name, h, timeout_ms=30000, max_paths=400, allow_exceptions=()
                 elif r2 == 'sat' and nnl == 0:
                     r, mdl = 'cex', m2
                 # else: keep the relaxed counter-model as a candidate
+            if not (z3.is_true(term) or z3.is_false(term)):
+                ssig = (obname, term.sexpr()[:2000])
+                if ssig not in seen_sym:
+                    seen_sym.add(ssig)
+                    res['symbolic_goals'] = res.get('symbolic_goals', 0) + 1
             if solve.STATS.trivial == before:
                 sig = (obname, z3.simplify(term).sexpr()[:2000])
                 if sig not in seen_keys:
